@@ -330,7 +330,7 @@ func c16Laws(c *Case) {
 func c16Cases(tier string) int {
 	n := len(c16Methods) + 3
 	if tier == "thorough" {
-		return n + 100000 + 100000
+		return n + 500000 + 500000
 	}
 	return n + 10000 + 6000
 }
@@ -339,7 +339,7 @@ func c16Run(c *Case) {
 	nm := len(c16Methods) + 3
 	ns := 10000
 	if c.Tier == "thorough" {
-		ns = 100000
+		ns = 500000
 	}
 	switch {
 	case c.Idx < nm:
